@@ -62,7 +62,7 @@ mutual
     | (k, j) :: r => (strOut k ++ "," ++ docOut j) :: docOutPairs r
 end
 
-def dstep (s : Unit) (toks : List String) : Unit × String :=
+def dstep0 (s : Unit) (toks : List String) : Unit × String :=
   (s, match toks with
   | ["reset"] => "ok"
   | ["cfg", side, d] =>
@@ -74,6 +74,154 @@ def dstep (s : Unit) (toks : List String) : Unit × String :=
       | none => "err"
     | _, _ => "bad-op"
   | _ => "bad-op")
+
+
+/-! ### arm tags: loader branches, and what every optional / string field and map key of both configs has seen -/
+
+def yamlish : List (List Char) :=
+  ["~", "null", "Null", "true", "yes", "no", "on", "off", "123", "-5", "1.5", "1e3", "0x10", "0o17", ".inf", ".nan", "-", "- a",
+   ": ", "a: b", "a:", "#", "a #b", "'", "\"", "[a]", "{a: b}", "&a", "*a", "!t", "|", ">", "%", "@", "`", "? a", "---", "...",
+   "2001-01-01", "12:30"].map String.toList
+
+def strClass (s : List Char) : String :=
+  if s.isEmpty then "empty"
+  else if s.contains '\n' then "multiline"
+  else if s.head? = some ' ' ∨ s.getLast? = some ' ' then "blank"
+  else if yamlish.contains s then "yamlish"
+  else if s.any (fun c => c.toNat > 0xffff) then "nonbmp"
+  else if s.length > 200 then "long"
+  else "plain"
+
+def strClasses : List String := ["empty", "multiline", "blank", "yamlish", "nonbmp", "long", "plain"]
+
+def fnames : Fields → List Key
+  | .nil => []
+  | .cons n _ _ _ r => n :: fnames r
+
+def isStr : Ty → Bool
+  | .str => true
+  | _ => false
+
+mutual
+  /-- tags of one value of type `t` at `path` -/
+  def armsNorm (path : String) : Ty → Doc → List String
+    | .bool, d => [match d with | .bool _ => "bool-ok" | _ => "bool-wrong-kind"]
+    | .uint max, d => [match d with
+        | .int z => if z < 0 then "uint-negative" else if z = max then "uint-at-max" else if z = max + 1 then "uint-max+1"
+                    else if z > max then "uint-above-max" else if z = 0 then "uint-zero" else "uint-ok"
+        | .flt _ => "uint-float" | _ => "uint-wrong-kind"]
+    | .sint lo hi, d => [match d with
+        | .int z => if z = lo then "sint-at-min" else if z = hi then "sint-at-max" else if z < lo then "sint-below-min"
+                    else if z > hi then "sint-above-max" else if z < 0 then "sint-negative-ok" else "sint-ok"
+        | .flt _ => "sint-float" | _ => "sint-wrong-kind"]
+    | .f64, d => [match d with
+        | .flt b => (match C42.classify64 b with | .nan => "f64-nan" | .inf _ => "f64-inf" | .fin _ m _ => if m = 0 then "f64-zero" else "f64-finite")
+        | .int _ => "f64-from-int" | _ => "f64-wrong-kind"]
+    | .str, d => (match d with
+        | .str s => ["str-ok", "str:" ++ path ++ ":" ++ strClass s]
+        | _ => ["str-wrong-kind"])
+    | .opt t, d => (match d with
+        | .null => ["opt-none", "opt:" ++ path ++ ":none"]
+        | d => (if isStr t then
+                  (match d with
+                   | .str s => ["opt:" ++ path ++ ":" ++ strClass s]
+                   | _ => [])
+                else ["opt:" ++ path ++ ":some"]) ++ "opt-some" :: armsNorm path t d)
+    | .seq t, d => (match d with
+        | .null => ["seq-null"]
+        | .seq l => (if l.isEmpty then "seq-empty" else "seq-nonempty") :: armsNormList (path ++ "[]") t l
+        | _ => ["seq-wrong-kind"])
+    | .strSet, d => (match d with
+        | .null => ["set-null"]
+        | .seq l =>
+          (match allStr l with
+           | none => ["set-nonstring"]
+           | some ks =>
+             [if ks.isEmpty then "set-empty" else if sortStr ks = ks then "set-sorted" else if (sortStr ks).length < ks.length then "set-duplicates" else "set-unsorted"] ++
+             ks.map (fun k => "str:" ++ path ++ "[]:" ++ strClass k))
+        | _ => ["set-wrong-kind"])
+    | .map t, d => (match d with
+        | .null => ["map-null"]
+        | .map kv =>
+          [if kv.isEmpty then "map-empty" else if (sortKV kv).map (·.1) = kv.map (·.1) then "map-sorted" else "map-unsorted"] ++
+          kv.map (fun p => "key:" ++ path ++ ":" ++ strClass p.1) ++ armsNormVals (path ++ ".*") t kv
+        | _ => ["map-wrong-kind"])
+    | .duration, d => (match d with
+        | .map kv =>
+          if !durKeysOk kv then ["dur-unknown-key"]
+          else match lookup kSecs kv, lookup kNanos kv with
+            | some (.int s), some (.int n) =>
+              if s < 0 ∨ s > u64Max then ["dur-secs-range"] else if n < 0 ∨ n > 4294967295 then ["dur-nanos-range"]
+              else if s.toNat + n.toNat / 1000000000 > u64Max then ["dur-carry-overflow"]
+              else [if n ≥ 1000000000 then "dur-carry" else if n = 999999999 then "dur-nanos-max" else if n = 0 then "dur-whole" else "dur-ok"]
+            | none, _ => ["dur-secs-missing"]
+            | _, none => ["dur-nanos-missing"]
+            | _, _ => ["dur-field-wrong-kind"]
+        | .null => ["dur-null"]
+        | _ => ["dur-wrong-kind"])
+    | .struct fs, d => (match d with
+        | .null => "struct-null" :: armsNormFields path fs []
+        | .map kv =>
+          "struct-map" :: (if kv.any (fun p => !(fnames fs).contains p.1) then ["struct-unknown-key"] else []) ++
+            (if (kv.filter (fun p => (fnames fs).contains p.1)).map (·.1) = (fnames fs).filter (fun n => (kv.map (·.1)).contains n) then ["struct-keys-in-order"] else ["struct-keys-reordered"]) ++
+            armsNormFields path fs kv
+        | .seq _ => ["struct-from-sequence"]
+        | _ => ["struct-wrong-kind"])
+  def armsNormList (path : String) : Ty → List Doc → List String
+    | _, [] => []
+    | t, d :: r => armsNorm path t d ++ armsNormList path t r
+  def armsNormVals (path : String) : Ty → List (Key × Doc) → List String
+    | _, [] => []
+    | t, (_, d) :: r => armsNorm path t d ++ armsNormVals path t r
+  def armsNormFields (path : String) : Fields → List (Key × Doc) → List String
+    | .nil, _ => []
+    | .cons name t skipNone dflt rest, kv =>
+      let p := if path.isEmpty then String.ofList name else path ++ "." ++ String.ofList name
+      (match lookup name kv with
+       | some d => (if skipNone then (match d with | .null => ["field-skipnone-null"] | _ => ["field-skipnone-some"]) else []) ++ armsNorm p t d
+       | none =>
+         match dflt with
+         | some _ => ["field-missing-default"]
+         | none => if isOpt t then ["field-missing-option", "opt:" ++ p ++ ":absent"] else ["field-missing-required"]) ++
+      armsNormFields path rest kv
+end
+
+mutual
+  /-- every field-level tag that a schema declares (for `props/C41.json`) -/
+  def declared (path : String) : Ty → List String
+    | .str => strClasses.map (fun c => "str:" ++ path ++ ":" ++ c)
+    | .opt t => ["opt:" ++ path ++ ":none"] ++
+        (if isStr t then strClasses.map (fun c => "opt:" ++ path ++ ":" ++ c) else ("opt:" ++ path ++ ":some") :: declared path t)
+    | .seq t => declared (path ++ "[]") t
+    | .strSet => strClasses.map (fun c => "str:" ++ path ++ "[]:" ++ c)
+    | .map t => strClasses.map (fun c => "key:" ++ path ++ ":" ++ c) ++ declared (path ++ ".*") t
+    | .struct fs => declaredFields path fs
+    | _ => []
+  def declaredFields (path : String) : Fields → List String
+    | .nil => []
+    | .cons name t _ dflt rest =>
+      let p := if path.isEmpty then String.ofList name else path ++ "." ++ String.ofList name
+      declared p t ++ (if isOpt t ∧ dflt.isNone then ["opt:" ++ p ++ ":absent"] else []) ++ declaredFields path rest
+end
+
+def dedupS : List String → List String
+  | [] => []
+  | x :: r => if r.contains x then dedupS r else x :: dedupS r
+
+def dstep (s : Unit) (toks : List String) : Unit × String :=
+  match toks with
+  | ["arms", side] =>
+    -- developer op: the field-level tags the schema declares
+    (s, if side = "server" then ",".intercalate (declared "server" serverConfig)
+        else if side = "client" then ",".intercalate (declared "client" clientConfig) else "bad-op")
+  | ["cfg", side, d] =>
+    let r := (dstep0 s toks).2
+    let arms := match (if side = "server" then some serverConfig else if side = "client" then some clientConfig else none),
+        (treeOf d).bind docOf with
+      | some ty, some doc => dedupS (armsNorm side ty doc ++ [if r = "err" then "load-err" else "load-ok"])
+      | _, _ => []
+    (s, if r = "bad-op" ∨ arms.isEmpty then r else r ++ " @@ " ++ ",".intercalate arms)
+  | _ => dstep0 s toks
 
 def driver : Driver := { σ := Unit, init := (), step := dstep }
 
